@@ -844,6 +844,13 @@ R9_RULES = [
             "let mut r9_n: usize = 0; while r9_n < $$e.len() { let $x = &$$e[r9_n]; r9_n = r9_n + 1; {", "} )", "} }"),
     ("R9q", "$$e . into_iter ( ) . map ( | $x | $$b ) . collect ( )",
             "({ let mut r9_q = $$e; let mut r9_out = Vec::new(); while r9_q.len() > 0 { let $x = vec_take_first(&mut r9_q); r9_out.push($$b); } r9_out })"),
+    ("R9u", "( 0 .. $$n ) . map ( | $i | {",
+            "({ let mut r9_a = Vec::new(); let mut r9_b = Vec::new(); let mut $i: usize = 0; while $i < $$n { let r9_item = ({",
+            "} ) . collect :: < io :: Result < Vec < _ >> > ( ) ? . into_iter ( ) . unzip ( )",
+            "})?; r9_a.push(r9_item.0); r9_b.push(r9_item.1); $i = $i + 1; } (r9_a, r9_b) })"),
+    ("R9t", "$$e . into_iter ( ) . map ( | ( $a , mut $b ) | {",
+            "({ let mut r9_q = $$e; let mut r9_out = Vec::new(); while r9_q.len() > 0 { let ($a, mut $b) = vec_take_first(&mut r9_q); let r9_item = ({",
+            "} ) . collect :: < io :: Result < _ >> ( ) ?", "})?; r9_out.push(r9_item); } r9_out })"),
     ("R9g", "$$e . iter ( ) . any ( | $x | $$c )",
             "({ let mut r9_any = false; let mut r9_k: usize = 0; while r9_k < $$e.len() && !r9_any { let $x = &$$e[r9_k]; if $$c { r9_any = true; } r9_k = r9_k + 1; } r9_any })"),
     ("R9i", "$$e . as_mut ( ) . and_then ( | $x | $x . pop_front ( ) )",
@@ -885,8 +892,11 @@ def _match_pat(toks, sidx, a, pat):
                         if r is not None:
                             return r
                     binds.clear(); binds.update(saved)
-                if p == "$$e" and (not (t.kind == "ident" or t.text == ".") or t.text in KEYWORDS):
+                if p == "$$e" and depth == 0 and not (t.kind == "punct" and t.text in ("(", "[")) and \
+                        (not (t.kind == "ident" or t.text in (".", "::")) or t.text in KEYWORDS):
                     return None
+                if p == "$$e" and depth == 0 and t.kind == "punct" and t.text in ("(", "[") and j == si:
+                    return None      # a receiver expression starts with a name, not with a bracket
                 if t.kind == "punct" and t.text in OPEN: depth += 1
                 elif t.kind == "punct" and t.text in CLOSE:
                     depth -= 1
